@@ -1,5 +1,7 @@
 import CoercionModel.Proofs.Engine
 import CoercionModel.Proofs.EnginePlan
+import CoercionModel.Model.Skeletons
+import CoercionModel.Generated.F10
 set_option linter.unusedSimpArgs false
 /-
   C01 — Declared order: blocks, then actions of a sequence, each gated on success.
@@ -144,5 +146,12 @@ def exBlock : MBlock :=
 example : (execBlockR exBlock).evs =
     [.group (some 1) .pre 2 true, .seq 1 4 false, .group (some 1) .deferred 12 true, .blockEnd 1 .failed] := by decide
 example : (runSeqActs exBlock.seqs.head!.actions).1.map (·.status) = [.completed, .failed, .notStarted] := by decide
+
+/-- the Go functions this property's model mirrors still have the shape the model was written against
+    (control-flow skeletons regenerated from /repo on every run, Model/Skeletons): execSeq, executeSequences -/
+theorem facts_skeleton :
+    Generated.F10.execSeq = Skeletons.execSeq ∧
+    Generated.F10.executeSequences = Skeletons.executeSequences := by
+  decide
 
 end Coercion.C01
